@@ -91,6 +91,38 @@ let () =
                Printf.printf "%d %d %s | %s | %s\n" (List.length bat) (int_of_z iter) (hex err) (hexs bat) (hexs (dump3 sh x))
              end
            end
+         | "DIVSTATE" ->
+           (* DIVSTATE nd per(nd) nxg(nd) w(nd) | sums(nt*nd) | counts(nt): set_div of a given gradient/count state *)
+           let nd = ni () in
+           let per = Array.init nd (fun _ -> nb ()) in
+           let nxg = Array.init nd (fun _ -> ni ()) in
+           let wd = Array.init nd (fun _ -> nf ()) in
+           let _ = next () in
+           let nt = Array.fold_left ( * ) 1 nxg in
+           let sums = Array.init (nt * nd) (fun _ -> nf ()) in
+           let _ = next () in
+           let cnts = Array.init nt (fun _ -> ni ()) in
+           let sc = { s_has_samples = true; s_min = z_of_int 0; s_full = z_of_int 1 } in
+           if nd = 2 then begin
+             let sh = { px = per.(0); py = per.(1); nxg = z_of_int nxg.(0); nyg = z_of_int nxg.(1); wx = wd.(0); wy = wd.(1) } in
+             let addr (i, j) = let i = int_of_z i and j = int_of_z j in
+               if i >= 0 && i < nxg.(0) && j >= 0 && j < nxg.(1) then i * nxg.(1) + j else -1 in
+             let st = { gsum2 = (fun p -> let k = addr p in if k < 0 then (0.0, 0.0) else (sums.(2 * k), sums.(2 * k + 1)));
+                        gcnt2 = (fun p -> let k = addr p in if k < 0 then z_of_int 0 else z_of_int cnts.(k));
+                        dv2 = (fun _ -> 0.0) } in
+             let bat = dump2 sh (set_div2 fops sc false sh st).dv2 in
+             Printf.printf "%d %s\n" (List.length bat) (hexs bat)
+           end else begin
+             let sh = { qx = per.(0); qy = per.(1); qz = per.(2); mxg = z_of_int nxg.(0); myg = z_of_int nxg.(1);
+                        mzg = z_of_int nxg.(2); vx = wd.(0); vy = wd.(1); vz = wd.(2) } in
+             let addr ((i, j), k) = let i = int_of_z i and j = int_of_z j and k = int_of_z k in
+               if i >= 0 && i < nxg.(0) && j >= 0 && j < nxg.(1) && k >= 0 && k < nxg.(2) then (i * nxg.(1) + j) * nxg.(2) + k else -1 in
+             let st = { gsum3 = (fun p -> let k = addr p in if k < 0 then ((0.0, 0.0), 0.0) else ((sums.(3 * k), sums.(3 * k + 1)), sums.(3 * k + 2)));
+                        gcnt3 = (fun p -> let k = addr p in if k < 0 then z_of_int 0 else z_of_int cnts.(k));
+                        dv3 = (fun _ -> 0.0) } in
+             let bat = dump3 sh (set_div3 fops sc false sh st).dv3 in
+             Printf.printf "%d %s\n" (List.length bat) (hexs bat)
+           end
          | "ATIMES" ->
            let nd = ni () in
            let per = Array.init nd (fun _ -> nb ()) in
